@@ -318,10 +318,13 @@ COMMON_MC = {
     "quick": [{"dir": "mc", "module": "MC_Fast.tla", "cfg": "MC_Fast_b4.cfg", "workers": 4}],
     "thorough": [{"dir": "mc", "module": "MC_Fast.tla", "cfg": "MC_Fast_b4.cfg", "workers": 4},
                  {"dir": "mc", "module": "MC_Fast.tla", "cfg": "MC_Fast_b256q.cfg", "workers": 4},
-                 {"dir": "mc", "module": "MC_L1.tla", "cfg": "MC_L1_b4.cfg", "workers": 4},
-                 {"dir": "mc", "module": "MC_L1.tla", "cfg": "MC_L1_b256.cfg", "workers": 4},
-                 L2MC, dict(L2MC, cfg="MC_L2_b16.cfg"), dict(L2MC, cfg="MC_L2_b2.cfg")],
+                 L2MC],
 }
+# the slower exhaustive configurations of the shared layers run in the thorough tier of the properties that own them
+for _p in ("C01", "C02", "C03"):
+    PROPS[_p]["mc"]["thorough"] = PROPS[_p]["mc"]["thorough"] + [{"dir": "mc", "module": "MC_L1.tla", "cfg": "MC_L1_b4.cfg", "workers": 4}, {"dir": "mc", "module": "MC_L1.tla", "cfg": "MC_L1_b256.cfg", "workers": 4}]
+for _p in ("C05", "C06", "C08"):
+    PROPS[_p]["mc"]["thorough"] = PROPS[_p]["mc"]["thorough"] + [dict(L2MC, cfg="MC_L2_b16.cfg"), dict(L2MC, cfg="MC_L2_b2.cfg")]
 
 KNOWN_PREDICATES = {}
 
